@@ -1,3 +1,5 @@
+//go:build go1.23
+
 // Package verifkit is the shared kit of the /verif harnesses. It is injected
 // into the keep-core build with -overlay (it never exists on disk in /repo).
 // It depends on the standard library only so every package may import it.
